@@ -147,6 +147,7 @@ class Layout:
     blank_lines: int = 0       # blank lines between statements
     eq_sp: str = ' '           # spaces around '='
     unary_sp: str = ''         # space after unary minus
+    comment_glue: bool = False  # the comment starts right after the last token (no blank before '#')
 
 
 PREC = {'if': 1, 'or': 2, 'and': 3, 'not': 4, 'cmp': 5, '+': 6, '-': 6, '*': 7, '/': 7, 'neg': 8, '**': 9, 'atom': 10}
@@ -238,7 +239,7 @@ def render_eq(eq: Eq, lay: Layout) -> str:
     s = lhs + lay.eq_sp + '=' + lay.eq_sp + rhs
     if lay.comment is not None:
         lines = s.split('\n')
-        lines[0] = lines[0] + '  # ' + lay.comment
+        lines[0] = lines[0] + ('# ' if lay.comment_glue else '  # ') + lay.comment
         s = '\n'.join(lines)
     return s
 
@@ -269,6 +270,10 @@ LAYOUTS: List[Layout] = [
     # bracket, just inside brackets, after commas (seeded change C14_r4mut2)
     Layout('wrapped_calls', wrap_rhs=True, call_space='\n      ', paren_sp='\n  ', comma=',\n    '),
     Layout('wrapped_calls_commented', wrap_rhs=True, call_space='  \n\t', comment='log (x'),
+    # a comment glued to the last token; line breaks and blanks inside index brackets (seeded changes C14_r5mut1/2)
+    Layout('glued_comment', comment='note G = 1', comment_glue=True),
+    Layout('wrapped_glued', wrap_rhs=True, comment='c', comment_glue=True, inner_index='\n   ', explicit_zero=True),
+    Layout('wrapped_index', wrap_rhs=True, inner_index='\n  '),
 ]
 
 
